@@ -128,5 +128,54 @@ mod __verif_c11cut {
         one_group(5, 5, 31, 31);
     }
 
+    /// splits of row group `g` start at position `k` of the output (symbolic); returns the position after them
+    fn check_group(splits: &VecShim<Split>, mut k: usize, g_index: usize, g_rows: i64, g_bytes: u64, max_pieces: usize) -> usize {
+        let mut next_row: i64 = 0;
+        let mut bytes: u128 = 0;
+        let mut pieces = 0usize;
+        while pieces < max_pieces {
+            match splits.get(k) {
+                Some(s) if s.row_group == g_index => {
+                    assert!(s.num_rows > 0, "C11.no_empty_split");
+                    assert!(s.row_offset == next_row, "C11.ranges_are_contiguous_from_zero");
+                    next_row += s.num_rows;
+                    bytes += s.bytes as u128;
+                    k += 1;
+                }
+                _ => {}
+            }
+            pieces += 1;
+        }
+        assert!(next_row == g_rows, "C11.every_row_exactly_once");
+        assert!(bytes == g_bytes as u128, "C11.bytes_sum_to_the_row_group");
+        k
+    }
+
+    // @harness tiers=quick,thorough timeout=900
+    // @encodes distributed::splits::enumerate_parquet (pass-2 block, verbatim), distributed::splits::target_split_bytes
+    // @bounds a whole table of TWO row groups (total_bytes = their sum, as pass 1 computes it) on 3 nodes: rows 1..=2 each, bytes 0..=63 each
+    // @oracle the output is exactly: the pieces of row group 0 (non-empty, contiguous from 0, rows and bytes summing to the row group's), then those of row group 1, then nothing; hence split bytes sum to the table's
+    // @out as cut_covers_every_row_once_small_table_3_nodes; more than two row groups
+    #[kani::proof]
+    #[kani::unwind(5)]
+    fn cut_two_row_groups_make_up_the_whole_table() {
+        let (r0, r1): (i64, i64) = (kani::any(), kani::any());
+        let (b0, b1): (u64, u64) = (kani::any(), kani::any());
+        kani::assume(r0 >= 1 && r0 <= 2 && r1 >= 1 && r1 <= 2);
+        kani::assume(b0 <= 63 && b1 <= 63);
+        let mut inv = VecShim::with_capacity(2);
+        inv.push(rg(0, r0, b0));
+        inv.push(rg(1, r1, b1));
+        let (_target, splits, inv) = pass2(&TOK, inv, b0 + b1, 3);
+        let k = check_group(&splits, 0, 0, r0, b0, 2);
+        let k = check_group(&splits, k, 1, r1, b1, 2);
+        assert!(k == splits.len(), "C11.no_split_outside_the_inventory");
+        kani::cover!(splits.len() == 2);
+        kani::cover!(splits.len() == 3);
+        kani::cover!(splits.len() == 4);
+        core::mem::forget(splits);
+        core::mem::forget(inv);
+    }
+
     // @playback
 }
